@@ -525,6 +525,71 @@ func reuseHistory(seed int64) rec {
 	return r
 }
 
+// durationHistory: the service is served, stopped, given another query event duration and served again
+// (half of the runs: served once). A query event of the current life is active for the configured
+// duration: inside it a request is answered, the callback has not been called with nil and the listener
+// lives; after it the usual end-of-life clauses hold.
+func durationHistory(seed int64) []rec {
+	rng := rand.New(rand.NewSource(seed))
+	d1, d2 := 2*time.Millisecond, 90*time.Millisecond
+	if seed%2 == 1 {
+		d1, d2 = 200*time.Millisecond, 4*time.Millisecond
+	}
+	w := newWorld(seed, false, d1, false)
+	restarted := rng.Intn(4) != 0
+	if restarted {
+		if rng.Intn(2) == 0 && d1 < 10*time.Millisecond {
+			// a query event of the first life (not observed), pending or expired when the service stops
+			w.svc.With("test.q", func(r res.Resource) { r.QueryEvent(func(res.QueryRequest) {}) })
+			time.Sleep(time.Duration(rng.Intn(4)) * time.Millisecond)
+		}
+		w.svc.Shutdown()
+		select {
+		case <-w.done:
+		case <-time.After(3 * time.Second):
+			return nil
+		}
+		w.svc.SetQueryEventDuration(d2)
+		w.conn = rconn.New(nil)
+		w.done = make(chan error, 1)
+		served := make(chan struct{})
+		w.svc.SetOnServe(func(*res.Service) { close(served) })
+		go func(conn *rconn.Conn, done chan error) { done <- w.svc.Serve(conn) }(w.conn, w.done)
+		select {
+		case <-served:
+		case <-time.After(3 * time.Second):
+			return nil
+		}
+		w.obsP.Store(&qeObs{})
+	} else {
+		d2 = d1
+	}
+	defer w.close()
+	t0 := time.Now()
+	if !w.startQuery() {
+		return nil
+	}
+	var out []rec
+	src := fmt.Sprintf("duration history seed %d: first life %v, restarted=%v, query event duration now %v", seed, d1, restarted, d2)
+	if d2 >= 90*time.Millisecond {
+		time.Sleep(25 * time.Millisecond)
+		w.setBeh("mid1", "")
+		w.sendReq("mid1")
+		time.Sleep(15 * time.Millisecond)
+		if time.Since(t0) < d2-20*time.Millisecond { // (a stalled harness proves nothing)
+			r := w.record([]string{"mid1"}, false, false, src+" - observed well inside the duration")
+			r["judge"] = "active"
+			out = append(out, r)
+		}
+		time.Sleep(d2 - time.Since(t0) + 40*time.Millisecond)
+		out = append(out, w.record([]string{"mid1"}, false, true, src+" - after the duration"))
+		return out
+	}
+	time.Sleep(d2 + 50*time.Millisecond)
+	out = append(out, w.record(nil, false, true, src+" - after the duration"))
+	return out
+}
+
 // Run executes the C15 check.
 func Run(c *core.Ctx) {
 	c.SetLevel("model_checking")
@@ -593,6 +658,11 @@ func Run(c *core.Ctx) {
 	for _, n := range []int{1, 10, c.Pick(60, 200)} {
 		recs = append(recs, longHistory(c.Seed, n))
 	}
+	for i := 0; i < c.Pick(8, 48); i++ {
+		for _, rr := range durationHistory(c.Seed*17 + int64(i)) {
+			recs = append(recs, rr)
+		}
+	}
 	var bad []int
 	core.CheckRecords(c, "TraceQueryObs", "TraceQueryObs.cfg", recs, nil, func(i int, r interface{}, inv string) { bad = append(bad, i) })
 	if len(bad) > 0 {
@@ -600,7 +670,10 @@ func Run(c *core.Ctx) {
 		var recs2 []interface{}
 		var which []string
 		for _, i := range bad {
-			for _, cl := range append(clauses, "foreign") {
+			for _, cl := range append(clauses, "foreign", "active") {
+				if cl == "active" && fmt.Sprint(recs[i].(rec)["judge"]) != "active" {
+					continue
+				}
 				// a record judged for one clause only (released / foreign) is re-judged for that clause
 				if j := fmt.Sprint(recs[i].(rec)["judge"]); j != "all" && j != cl {
 					continue
